@@ -30,7 +30,8 @@ RULE = ("Hypothesis generates platform descriptions: 2..7 resources (name, numbe
         "differential or subsignal resource. Distinct by canonical hash of the case.")
 ASSUMPTIONS = [
     "Connector-relative pins always name existing connector pins (a dangling reference is a NameError, outside this property).",
-    "Illegal dir overrides raise TypeError/ValueError before anything is allocated; they are expected not to change the allocation either.",
+    "Illegal dir overrides raise TypeError/ValueError before anything is allocated, an unsupported data rate (xdr > 2 with a "
+    "pin-style request) raises ValueError after the pins were looked up; neither may change the allocation.",
 ]
 QUICK_SHARDS = 4
 THOROUGH_SHARDS = 16
@@ -123,7 +124,7 @@ def descriptions(draw, nreq=12):
         m = draw(INT(0, 5))
         q["dir"] = "-" if m <= 3 else None if m == 4 else PICK(draw, ["i", "o", "oe", "io", "bogus"])
         if draw(INT(0, 5)) == 0 and q["dir"] != "-":
-            q["xdr"] = draw(INT(0, 2))
+            q["xdr"] = draw(INT(0, 4))      # gearing ratios above 2 are refused (ValueError) once the pins are known
         reqs.append(q)
     return {"connectors": conns, "resources": res, "requests": reqs}
 
@@ -264,7 +265,7 @@ def history_body(ctx, case):
         rm = ResourceManager(build_resources(desc), build_connectors(desc))
     owner = {}            # physical pin -> (resource key)
     granted = set()
-    stats = dict(refused_then_touch=False, granted=0, refused_pin=0, refused_twice=0, unknown=0, bad_dir=0)
+    stats = dict(refused_then_touch=False, granted=0, refused_pin=0, refused_twice=0, unknown=0, bad_dir=0, refused_late=0)
     refused_pins = set()
     for step, q in enumerate(case["requests"]):
         r = find_res(desc, q["name"], q["number"])
@@ -293,11 +294,14 @@ def history_body(ctx, case):
                 if clash:
                     expect = "ResourceError"; stats["refused_pin"] += 1
                     refused_pins |= set(pins)
+                elif q.get("xdr", 0) > 2:
+                    expect = "ValueError"; stats["refused_late"] += 1
+                    refused_pins |= set(pins)
                 else:
                     expect = "ok"
                     if refused_pins & set(pins):
                         stats["refused_then_touch"] = True
-            if expect != "ok" and expect != "ResourceError":
+            if expect not in ("ok", "ResourceError", "ValueError"):
                 stats["bad_dir"] += 1
         # implementation
         kw = {}
@@ -314,7 +318,7 @@ def history_body(ctx, case):
             got, msg = "ResourceError", str(e)
         except (TypeError, ValueError) as e:
             got, msg = "TypeError/ValueError", str(e)
-        exp_norm = "TypeError/ValueError" if expect.startswith("TypeError") else expect
+        exp_norm = "TypeError/ValueError" if expect.startswith(("TypeError", "ValueError")) else expect
         if got != exp_norm:
             raise Mismatch("request-decision", step=step, request=q, expected=expect, actual=got,
                            detail=(msg if got != "ok" else None), granted=sorted(map(list, granted)),
@@ -341,6 +345,7 @@ def history_body(ctx, case):
     if stats["refused_twice"]: keys.append("hist:refused-repeat")
     if stats["unknown"]: keys.append("hist:unknown-resource")
     if stats["bad_dir"]: keys.append("hist:illegal-override")
+    if stats["refused_late"]: keys.append("hist:refused-unsupported-data-rate")
     if stats["refused_then_touch"]: keys.append("hist:refused-then-granted-on-same-pins")
     lvs = [lf for r in desc["resources"] for _, lf in leaves(r)]
     if any(chain_len(desc, lf) >= 2 for lf in lvs): keys.append("hist:connector-chain>=2")
@@ -497,7 +502,7 @@ def parts(tier):
     ]
 
 
-REQUIRED = ["hist:granted", "hist:refused-pin-conflict", "hist:refused-repeat", "hist:unknown-resource",
+REQUIRED = ["hist:granted", "hist:refused-unsupported-data-rate", "hist:refused-pin-conflict", "hist:refused-repeat", "hist:unknown-resource",
             "hist:illegal-override", "hist:refused-then-granted-on-same-pins", "hist:connector-chain>=2",
             "hist:differential", "hist:subsignals", "plan:icestorm", "plan:trellis", "plan:apicula",
             "plan:pins-checked", "plan:clock-checked", "plan:connector-relative", "plan:differential",
